@@ -28,6 +28,18 @@ CHECKS = {
 
 NOT_APPLICABLE = []
 
+CHECKS['C13'] = (
+    'symbolic execution of the real DefaultScheduler and db-api on an '
+    'in-memory backend that interprets the captured SQLAlchemy clause trees '
+    '(sqlir) over symbolic rows; interleavings of scheduler instances and '
+    'clock readings are solver variables (symx actors); z3 decides every path',
+    'Selection predicate, CAS capture, has_scheduled_jobs and the '
+    'schedule/dispatch/capture/invoke/delete/poll protocol of up to 3 actors '
+    'over one job under all interleavings and clock positions: not early, '
+    'rolled back => never run, re-capture only after the timeout, exactly '
+    'once when capturers finish in time, never lost.',
+    '§3 C13')
+
 
 def main():
     checks = []
